@@ -32,11 +32,11 @@ def dependency_units(pid):
     buf = ('PacketBuffer', lambda: c02.BufferContract())
     table = {
         'C01': [gendef],
-        'C07': [wlock, wpkt],
+        'C07': [wlock, wpkt, ('read-frame', lambda: c01.ReadFrame()), ('read-segmentation', lambda: c01.Segmentation())],
         'C05': [order, wlock, wpkt, ('read-frame', lambda: c01.ReadFrame()), ('Position.send', lambda: c04.PositionSend()), ('Position.any-word', lambda: c04.PositionAnyWord()),
                 ('ChunkSectionPos', lambda: c04.SectionPos()), ('BlockRecord', lambda: c04.BlockRecord()),
                 ('flag-names', lambda: c20.Flags())],
-        'C06': [order],
+        'C06': [order, ('context-holds-a-protocol-number', lambda: c09.InitVersions())],
         'C09': [life, connect, string, trail, wpkt],
         'C10': [hsh, frame, string, trail, vread, gendef],
         'C11': [wpkt, life, order, connect, shape],
